@@ -3,7 +3,9 @@
 import json, os, subprocess, sys
 HERE = os.path.dirname(os.path.dirname(os.path.abspath(__file__)))
 sys.path.insert(0, HERE)
-CHECKS = json.load(open(os.path.join(HERE, "tools", "checks.json")))
+ALL = json.load(open(os.path.join(HERE, "tools", "checks.json")))
+CHECKS = [c for c in ALL if os.path.exists(os.path.join(HERE, "vlib", "checks", c["id"].lower() + ".py"))]
+NA_REASONS = json.load(open(os.path.join(HERE, "tools", "not_applicable.json")))
 hook_commits = subprocess.run(["git", "-C", "/repo", "log", "--format=%H", "--grep=^verif hook"], capture_output=True, text=True).stdout.split()
 m = {
     "version": 1,
@@ -19,7 +21,7 @@ m = {
                  "kind_free_text": "runtime monitoring: drives the real code from /repo's working tree in worker processes and lets independent reference-model / history / effect / resource monitors observe every execution (vlib/)"}],
     "checks": [],
     "notes": "All levels are 'exploration': every verdict is 'held on the executions observed'. Exit 0 held, 1 violation (VIOLATION line + replay file), 3 inconclusive (monitor not reached / canary not flagged / too few distinct cases). Known findings: KNOWN_FINDINGS.txt. See DESIGN.md.",
-    "not_applicable": json.load(open(os.path.join(HERE, "tools", "not_applicable.json"))),
+    "not_applicable": [{"property_id": c["id"], "reason": NA_REASONS.get(c["id"], "check under construction in this session (design: DESIGN.md section 5); not claimed until it has run silently on the unchanged tree")} for c in ALL if c not in CHECKS],
 }
 for c in CHECKS:
     m["checks"].append({
